@@ -117,7 +117,7 @@ CHECKS["C04"] = dict(
 
 CHECKS["C18"] = dict(
     cat="model_checking", ref="DESIGN.md §3 C18",
-    technique="exhaustive enumeration of all subsets of <=3/4 of 15 fault sites on a two-platform multi-TU code base (analysed in-process and through the codebasin CLI), plus explicit-state exploration of include-directive sequences on one Platform (state = its include memo); oracle = event log of the reference preprocessor",
+    technique="exhaustive enumeration of all subsets of <=3/4 of 16 fault sites on a two-platform multi-TU code base (analysed in-process and through the codebasin CLI), plus explicit-state exploration of include-directive sequences on one Platform (state = its include memo); oracle = event log of the reference preprocessor",
     text="For every fault combination the set of (category, file, line, name, quote/angle) warning records captured from the codebasin logger must equal the model's events, each at least once and at most once per reach event, fully honoured input must produce none, and the three totals printed by codebasin must equal the WARNING records in cbi.log; no include sequence may let the memo suppress a later warning.",
     note="Multiplicity of source-level events is bounded (1..reach events), of database-level events (missing file, unknown compiler, unknown flag) exact; wording beyond the named fields is not compared.",
 )
